@@ -39,12 +39,14 @@ type c07Case struct {
 	Gen1      int         `json:"first_generation"` // tunnels whose host greets and hangs up, run before the concurrent ones
 	Tunnels   []c07Tunnel `json:"tunnels"`
 	Rogue     bool        `json:"rogue_in"` // pairing probe: OUT(id-a) is open, an IN with a similar but different id arrives
+	Buffers   bool        `json:"socket_buffer_sizes_configured,omitempty"` // server.sendbuf / server.receivebuf are set: the gateway touches the descriptor of every client connection
 	SharedSub bool        `json:"shared_token_subject,omitempty"` // token auth: every cookie carries the same subject (rendered user name) although the accounts behind the access tokens differ
 }
 
 func genC07(t *rapid.T, maxTunnels int) c07Case {
 	c := c07Case{TokenAuth: rapid.Bool().Draw(t, "tokenAuth"), Gen1: rapid.SampledFrom([]int{0, 0, 2, 6}).Draw(t, "gen1"), Rogue: rapid.IntRange(0, 2).Draw(t, "rogue") == 0}
 	c.SharedSub = c.TokenAuth && rapid.IntRange(0, 2).Draw(t, "sharedSub") == 0
+	c.Buffers = rapid.IntRange(0, 2).Draw(t, "buffers") == 0
 	n := rapid.IntRange(1, maxTunnels).Draw(t, "tunnels")
 	for i := 0; i < n; i++ {
 		tn := c07Tunnel{Kind: genKind(t), User: strconv.Itoa(rapid.IntRange(1, 9).Draw(t, "user")),
@@ -317,7 +319,11 @@ func around(b []byte, at int) string {
 func atoi(s string) int { n, _ := strconv.Atoi(s); return n }
 
 func c07Opts(c c07Case, P int) gwOpts {
-	return gwOpts{TokenAuth: c.TokenAuth, HostSelection: "roundrobin", Hosts: []string{"127.0.0." + placeholder + ":" + strconv.Itoa(P)}, VerifyIP: true}
+	o := gwOpts{TokenAuth: c.TokenAuth, HostSelection: "roundrobin", Hosts: []string{"127.0.0." + placeholder + ":" + strconv.Itoa(P)}, VerifyIP: true}
+	if c.Buffers {
+		o.SendBuf, o.ReceiveBuf = 262144, 262144
+	}
+	return o
 }
 
 func runC07(c c07Case, o gwOpts, mkTarget func(user string) gwc.Target) *Violation {
